@@ -197,7 +197,31 @@ CLAIMED["C15"] = dict(
        "are floating-point observations.",
   ref="DESIGN.md section 5 (C15)", engine="tlc-volavg")
 
+CLAIMED["C02"] = dict(
+  technique="TLA+ first-principles finite-integration operator in exact "
+            "rationals (Operator.tla: incidence curl, face/edge averages) + "
+            "TLC validation of the matrix of the real compiled amat_x "
+            "extracted by basis fields (OperatorCode.tla)",
+  text="TLC checks on the reference that the curl of every discrete gradient "
+       "vanishes (all width vectors over {1,2,4} on small grids).  For 30 "
+       "(thorough 130) grids of 2..5 cells per direction with dyadic widths, "
+       "integer zeta and Gaussian-integer direction-dependent eta (real and "
+       "complex), the full matrix of the compiled kernel is extracted "
+       "(bit-equal to its Python source) and TLC checks every interior row "
+       "against 1/2 D^T (zeta_a+zeta_b) D - 1/4 sum_4 eta exactly, complex "
+       "symmetry, the gradient null space of the curl-curl part, and the "
+       "boundary rows; residual() / the wrappers and VolumeModel's "
+       "coefficients and anisotropy aliasing are observed; the harness's own "
+       "assembler (oracle of C01/C03) is compared on the same instances.",
+  note="Trusted: TLC.  Exactness relies on dyadic inputs; general widths and "
+       "material values follow from multilinearity of the entries (not "
+       "checked by TLC), VolumeModel formula checked in floating point.",
+  ref="DESIGN.md section 5 (C02)", engine="tlc-operator")
+
 ENGINES = [
+ dict(name="tlc-operator", path="spec/Operator.tla", serves_properties=["C02"],
+      kind_free_text="TLA+ exact-arithmetic reference + TLC validation of "
+                     "extracted code matrices"),
  dict(name="tlc-volavg", path="spec/VolAvg.tla", serves_properties=["C15"],
       kind_free_text="TLA+ exact-arithmetic reference + TLC validation of "
                      "code output"),
